@@ -191,3 +191,9 @@ contract("src/primaite/simulator/system/applications/database_client.py::Databas
 contract(f"{RS}::RansomwareScript._perform_ransomware_encrypt", props=["C01"],
          ensures=[("no_client_no_attack", "implies(old(self._host_db_client) is None, result == False and unchanged())")],
          modifies=["heap"], allocates=True)
+
+# ---- every action type answered without an exception (bounded native sweep, the totality side of bounded/action_routes.py) ----------------------
+from pyvc.contracts import native_bounded as _native_bounded  # noqa: E402
+_native_bounded("C01", "action-total", "bounded/action_total.py",
+                "every registered action type x two nodes of every (node class, installed software) signature of the shipped data_manipulation and uc7 scenarios x up to 12 parameter choices naming components that exist on the node",
+                "the real form_request and the real Simulation.apply_request on a forked copy of the built game: answering the request raises nothing")
